@@ -42,6 +42,7 @@ def check_real(sc, toks, start_mode=True):
     last_host = None              # last host-call token seen inside the running callback
     panic = None
     bon_done = False
+    ystep_last = False            # the running callback's last body activity is a yield_async that woke the task
 
     def task(t):
         if t not in tasks:
@@ -62,6 +63,11 @@ def check_real(sc, toks, start_mode=True):
     while i < n:
         tok = toks[i]
         i += 1
+        if tok.startswith("ystep:"):
+            ystep_last = True
+            continue
+        if not re.match(r"(wspoll|join|cget|cset|start|cb):", tok):
+            ystep_last = False
         if tok.startswith("PANIC:") or tok.startswith("ABORT"):
             panic = tok
             break
@@ -123,6 +129,9 @@ def check_real(sc, toks, start_mode=True):
             else:
                 e0, code = 0, _num(m.group(3))
             tv.codes.append(code)
+            if ystep_last and e0 != 6 and code != YIELD:
+                viol("woken-during-poll-not-yielded", "task %d: a body yielded (woke the task during polling), nothing else happened, yet the answer is %d" % (t, code))
+            ystep_last = False
             if tv.exited:
                 viol("callback-after-exit", "task %d" % t)
             kind = code & 0xf
